@@ -337,13 +337,22 @@ Proof.
 Qed.
 
 (* ---------- numerals *)
+(* the wide class: every byte of a numeral run but a sign is in it *)
 Definition numch (c : Z) : bool := is_alnum c || (c =? 46).
+(* the bytes the loop of the run reads (besides a sign after an exponent letter) *)
+Definition runch (h : bool) (c : Z) : bool := is_hex c || (c =? 46) || (h && ((c =? 112) || (c =? 80))).
 Definition expo (h : bool) (c : Z) : bool := if h then (c =? 112) || (c =? 80) else (c =? 101) || (c =? 69).
 Definition is_sign (c : Z) : bool := (c =? 43) || (c =? 45).
 
+Lemma runch_numch h c : runch h c = true -> numch c = true.
+Proof.
+  unfold runch, numch, is_hex, is_lower_hex, is_upper_hex, is_alnum, is_alpha, is_digit. intros H.
+  destruct h; cbn [andb] in H; lia.
+Qed.
+
 Lemma num_run_cons h e c r :
   num_run h e (c :: r) =
-  if numch c then let '(a, b) := num_run h (expo h c) r in (c :: a, b)
+  if runch h c then let '(a, b) := num_run h (expo h c) r in (c :: a, b)
   else if e && is_sign c then let '(a, b) := num_run h false r in (c :: a, b)
   else ([], c :: r).
 Proof. reflexivity. Qed.
@@ -352,20 +361,30 @@ Proof. reflexivity. Qed.
 Fixpoint end_flag (h e : bool) (a : list Z) : bool :=
   match a with
   | [] => e
-  | c :: r => if numch c then end_flag h (expo h c) r else end_flag h false r
+  | c :: r => if runch h c then end_flag h (expo h c) r else end_flag h false r
   end.
 
 Definition num_stops (f : bool) (b : list Z) : Prop :=
   match b with [] => True | c :: _ => numch c = false /\ (f && is_sign c) = false end.
 
+(* where the run really stops *)
+Definition run_stops (h f : bool) (b : list Z) : Prop :=
+  match b with [] => True | c :: _ => runch h c = false /\ (f && is_sign c) = false end.
+
+Lemma num_stops_run h f b : num_stops f b -> run_stops h f b.
+Proof.
+  destruct b as [|c b]; [exact (fun x => x)|]. cbn [num_stops run_stops]. intros [H1 H2]. split; [|exact H2].
+  destruct (runch h c) eqn:E; [|reflexivity]. apply runch_numch in E. congruence.
+Qed.
+
 Lemma num_run_ctx h : forall a e b0 b,
-  num_run h e (a ++ b0) = (a, b0) -> num_stops (end_flag h e a) b -> num_run h e (a ++ b) = (a, b).
+  num_run h e (a ++ b0) = (a, b0) -> run_stops h (end_flag h e a) b -> num_run h e (a ++ b) = (a, b).
 Proof.
   induction a as [|c a IH]; intros e b0 b H Hs.
   - cbn [app end_flag] in *. destruct b as [|d b]; [reflexivity|]. destruct Hs as [H1 H2].
     rewrite num_run_cons, H1, H2. reflexivity.
   - cbn [app] in *. rewrite num_run_cons in H. rewrite num_run_cons. cbn [end_flag] in Hs.
-    destruct (numch c).
+    destruct (runch h c).
     + destruct (num_run h (expo h c) (a ++ b0)) as [x y] eqn:E. injection H as -> ->.
       rewrite (IH _ _ _ E Hs). reflexivity.
     + destruct (e && is_sign c).
@@ -377,18 +396,42 @@ Qed.
 Lemma num_run_split h : forall s e a b, num_run h e s = (a, b) -> s = a ++ b.
 Proof.
   induction s as [|c r IH]; intros e a b H; [injection H as <- <-; reflexivity|].
-  rewrite num_run_cons in H. destruct (numch c).
+  rewrite num_run_cons in H. destruct (runch h c).
   - destruct (num_run h (expo h c) r) as [x y] eqn:E. injection H as <- <-. cbn. f_equal. eapply IH, E.
   - destruct (e && is_sign c).
     + destruct (num_run h false r) as [x y] eqn:E. injection H as <- <-. cbn. f_equal. eapply IH, E.
     + injection H as <- <-. reflexivity.
 Qed.
 
-Lemma end_flag_last h : forall p e c, numch c = true -> end_flag h e (p ++ [c]) = expo h c.
+(* the run stops where it stops *)
+Lemma num_run_stops h : forall s e a b, num_run h e s = (a, b) -> run_stops h (end_flag h e a) b.
+Proof.
+  induction s as [|c r IH]; intros e a b H; [injection H as <- <-; exact I|].
+  rewrite num_run_cons in H. destruct (runch h c) eqn:Ec.
+  - destruct (num_run h (expo h c) r) as [x y] eqn:E. injection H as <- <-. cbn [end_flag]. rewrite Ec. eapply IH, E.
+  - destruct (e && is_sign c) eqn:Es.
+    + destruct (num_run h false r) as [x y] eqn:E. injection H as <- <-. cbn [end_flag]. rewrite Ec. eapply IH, E.
+    + injection H as <- <-. cbn [end_flag run_stops]. split; assumption.
+Qed.
+
+(* every byte of the run is a letter, a digit, a dot or a sign *)
+Lemma num_run_chars h : forall s e a b, num_run h e s = (a, b) -> forallb (fun c => numch c || is_sign c) a = true.
+Proof.
+  induction s as [|c r IH]; intros e a b H; [injection H as <- <-; reflexivity|].
+  rewrite num_run_cons in H. destruct (runch h c) eqn:En.
+  - destruct (num_run h (expo h c) r) as [x y] eqn:E. injection H as <- <-. cbn [forallb].
+    rewrite (runch_numch _ _ En). cbn [orb andb]. eapply IH, E.
+  - destruct (e && is_sign c) eqn:Es.
+    + destruct (num_run h false r) as [x y] eqn:E. injection H as <- <-. cbn [forallb].
+      apply andb_true_iff in Es. destruct Es as [_ ->]. rewrite orb_true_r. cbn [andb]. eapply IH, E.
+    + injection H as <- <-. reflexivity.
+Qed.
+
+Lemma end_flag_last h : forall p e c, runch h c = true -> end_flag h e (p ++ [c]) = expo h c.
 Proof.
   induction p as [|d p IH]; intros e c Hc; cbn [app end_flag].
   - rewrite Hc. reflexivity.
-  - destruct (numch d); apply IH, Hc.
+  - destruct (runch h d); apply IH, Hc.
 Qed.
 
 Lemma forallb_last {A} (p : A -> bool) (l : list A) : nonempty l = true -> forallb p l = true ->
@@ -401,13 +444,13 @@ Proof.
 Qed.
 
 Definition good_last (h : bool) (a : list Z) : Prop :=
-  exists q c, a = q ++ [c] /\ numch c = true /\ expo h c = false.
+  exists q c, a = q ++ [c] /\ runch h c = true /\ expo h c = false.
 
 Lemma good_last_app h x a : good_last h a -> good_last h (x ++ a).
 Proof. intros (q & c & -> & H). exists (x ++ q), c. rewrite app_assoc. auto. Qed.
 
 Lemma parse_based_last h base isd r v :
-  (forall c, isd c = true -> numch c = true /\ expo h c = false) ->
+  (forall c, isd c = true -> runch h c = true /\ expo h c = false) ->
   parse_based base isd r = Some v -> good_last h r.
 Proof.
   intros Hg H. unfold parse_based in H. destruct (span isd r) as [ip r1] eqn:E.
@@ -422,8 +465,8 @@ Proof.
     destruct (forallb_last isd fp En Hfp) as (q & d & -> & Hd). exists q, d. split; [reflexivity | apply Hg, Hd].
 Qed.
 
-Lemma digit_good c : is_digit c = true -> numch c = true /\ expo false c = false.
-Proof. unfold numch, is_alnum, is_alpha, is_digit, expo. intros H. split; lia. Qed.
+Lemma digit_good c : is_digit c = true -> runch false c = true /\ expo false c = false.
+Proof. unfold runch, is_hex, is_digit, expo. intros H. split; lia. Qed.
 
 Lemma parse_exponent_last r x : parse_exponent r = Some x -> good_last false r.
 Proof.
@@ -437,7 +480,7 @@ Proof.
     split; [reflexivity | apply digit_good, Hd].
 Qed.
 
-Lemma dot_good : numch 46 = true /\ expo false 46 = false.
+Lemma dot_good : runch false 46 = true /\ expo false 46 = false.
 Proof. split; reflexivity. Qed.
 
 Lemma parse_decimal_last a v : parse_decimal a = Some v -> good_last false a.
@@ -487,11 +530,11 @@ Lemma is_hex_prefix_eq s :
   is_hex_prefix s = match s with c :: x :: _ => (c =? 48) && ((x =? 120) || (x =? 88)) | _ => false end.
 Proof. destruct s as [|c [|x r]]; try reflexivity; unfold is_hex_prefix; zlit c. Qed.
 
-Lemma hex_good c : is_hex c = true -> numch c = true /\ expo true c = false.
-Proof. unfold is_hex, is_digit, is_lower_hex, is_upper_hex, numch, is_alnum, is_alpha, is_digit, expo. intros H. split; lia. Qed.
+Lemma hex_good c : is_hex c = true -> runch true c = true /\ expo true c = false.
+Proof. unfold runch, is_hex, is_digit, is_lower_hex, is_upper_hex, expo. intros H. split; lia. Qed.
 
-Lemma bin_good c : is_bin c = true -> numch c = true /\ expo false c = false.
-Proof. unfold is_bin, numch, is_alnum, is_alpha, is_digit, expo. intros H. split; lia. Qed.
+Lemma bin_good c : is_bin c = true -> runch false c = true /\ expo false c = false.
+Proof. unfold is_bin, runch, is_hex, is_digit, expo. intros H. split; lia. Qed.
 
 Lemma spec_numeral_last a v : spec_numeral a = Some v -> good_last (is_hex_prefix a) a.
 Proof.
@@ -524,46 +567,186 @@ Proof.
     destruct r as [|d r]; [discriminate|]. cbn. rewrite Hd. reflexivity.
 Qed.
 
-Lemma hex_prefix_ctx a b0 b : num_run (is_hex_prefix (a ++ b0)) false (a ++ b0) = (a, b0) -> a <> [] ->
-  num_stops false b -> is_hex_prefix (a ++ b) = is_hex_prefix (a ++ b0).
+(* ---------- the numeral's extent: the optional dot, the optional 0x, the run *)
+(* hexadecimal mode *)
+Definition num_mode (s : list Z) : bool :=
+  match s with c :: r => if c =? 46 then is_hex_prefix r else is_hex_prefix s | [] => false end.
+
+Lemma num_body_eq s :
+  num_body s = if is_hex_prefix s
+               then let '(a, b) := num_run true false (skipn 2 s) in (firstn 2 s ++ a, b)
+               else num_run false false s.
 Proof.
-  intros H Ha Hs. rewrite !is_hex_prefix_eq. destruct a as [|c [|x a]]; [congruence | | reflexivity].
-  cbn [app] in *. destruct b as [|y b]; destruct b0 as [|y0 b0]; try reflexivity.
-  - rewrite num_run_cons in H. destruct (numch c); [|discriminate].
-    destruct (num_run (is_hex_prefix (c :: y0 :: b0)) (expo (is_hex_prefix (c :: y0 :: b0)) c) (y0 :: b0)) as [p q] eqn:E.
-    injection H as -> Hq. rewrite num_run_cons in E. destruct (numch y0) eqn:Ey.
-    + destruct (num_run _ _ b0); discriminate.
-    + unfold numch, is_alnum, is_alpha in Ey. replace ((y0 =? 120) || (y0 =? 88)) with false by lia.
-      rewrite andb_false_r. reflexivity.
-  - destruct Hs as [Hy _]. unfold numch, is_alnum, is_alpha in Hy. replace ((y =? 120) || (y =? 88)) with false by lia.
-    rewrite andb_false_r. reflexivity.
-  - destruct Hs as [Hy _]. unfold numch, is_alnum, is_alpha in Hy. replace ((y =? 120) || (y =? 88)) with false by lia.
-    rewrite andb_false_r. rewrite num_run_cons in H. destruct (numch c); [|discriminate].
-    destruct (num_run (is_hex_prefix (c :: y0 :: b0)) (expo (is_hex_prefix (c :: y0 :: b0)) c) (y0 :: b0)) as [p q] eqn:E.
-    injection H as -> Hq. rewrite num_run_cons in E. destruct (numch y0) eqn:Ey.
-    + destruct (num_run _ _ b0); discriminate.
-    + unfold numch, is_alnum, is_alpha in Ey. replace ((y0 =? 120) || (y0 =? 88)) with false by lia.
-      rewrite andb_false_r. reflexivity.
+  destruct s as [|z [|x r]]; unfold num_body; rewrite ?is_hex_prefix_eq; reflexivity.
 Qed.
 
-Lemma num_start_ctx a b0 b : num_run (is_hex_prefix (a ++ b0)) false (a ++ b0) = (a, b0) ->
-  num_start (a ++ b0) = true -> num_start (a ++ b) = true.
+Lemma num_split_dec s : num_mode s = false -> num_split s = num_run false false s.
 Proof.
-  intros H Hs. destruct a as [|c a].
-  - cbn [app] in *. destruct b0 as [|y0 b0]; [discriminate|]. rewrite num_run_cons in H.
-    cbn [num_start] in Hs. assert (numch y0 = true).
-    { unfold numch, is_alnum. destruct (is_digit y0).
-      - rewrite orb_true_r. reflexivity.
-      - cbn [orb] in Hs. apply andb_true_iff in Hs. destruct Hs as [-> _]. apply orb_true_r. }
-    rewrite H0 in H. destruct (num_run _ _ b0); discriminate.
-  - cbn [app num_start] in *. destruct (is_digit c); [reflexivity|]. cbn [orb] in *.
-    apply andb_true_iff in Hs. destruct Hs as [Hc Hd]. rewrite Hc. cbn [andb].
-    destruct a as [|d a]; [|exact Hd]. cbn [app] in *. destruct b0 as [|y0 b0]; [discriminate|].
-    rewrite num_run_cons in H. destruct (numch c); [|discriminate].
-    destruct (num_run (is_hex_prefix (c :: y0 :: b0)) (expo (is_hex_prefix (c :: y0 :: b0)) c) (y0 :: b0)) as [p q] eqn:E.
-    injection H as -> Hq. rewrite num_run_cons in E.
-    assert (numch y0 = true) by (unfold numch, is_alnum; rewrite Hd; rewrite orb_true_r; reflexivity).
-    rewrite H in E. destruct (num_run _ _ b0); discriminate.
+  destruct s as [|c r]; [reflexivity|]. unfold num_mode, num_split. destruct (c =? 46) eqn:Ec.
+  - intros H. rewrite num_body_eq, H. apply Z.eqb_eq in Ec. subst c. rewrite num_run_cons.
+    change (runch false 46) with true. cbv iota. reflexivity.
+  - intros H. rewrite num_body_eq, H. reflexivity.
+Qed.
+
+Lemma num_split_hex x r : (x =? 120) || (x =? 88) = true ->
+  num_split (48 :: x :: r) = let '(a, b) := num_run true false r in (48 :: x :: a, b).
+Proof.
+  intros Hx. unfold num_split. change (48 =? 46) with false. cbv iota. rewrite num_body_eq, is_hex_prefix_eq.
+  change (48 =? 48) with true. rewrite Hx. reflexivity.
+Qed.
+
+Lemma num_split_split s a b : num_split s = (a, b) -> s = a ++ b.
+Proof.
+  assert (B : forall s a b, num_body s = (a, b) -> s = a ++ b).
+  { intros s0 a0 b0. rewrite num_body_eq. destruct (is_hex_prefix s0) eqn:Eh.
+    - destruct (num_run true false (skipn 2 s0)) as [x y] eqn:E. intros H. injection H as <- <-.
+      rewrite <- app_assoc, <- (num_run_split _ _ _ _ _ E). symmetry. exact (firstn_skipn 2 s0).
+    - apply num_run_split. }
+  destruct s as [|c r]; [intros H; injection H as <- <-; reflexivity|]. unfold num_split.
+  destruct (c =? 46).
+  - destruct (num_body r) as [x y] eqn:E. intros H. injection H as <- <-. cbn [app]. f_equal. apply B, E.
+  - apply B.
+Qed.
+
+Lemma num_split_chars s a b : num_split s = (a, b) -> forallb (fun c => numch c || is_sign c) a = true.
+Proof.
+  assert (B : forall s a b, num_body s = (a, b) -> forallb (fun c => numch c || is_sign c) a = true).
+  { intros s0 a0 b0. rewrite num_body_eq, is_hex_prefix_eq. destruct s0 as [|z [|x r]]; try apply num_run_chars.
+    destruct ((z =? 48) && ((x =? 120) || (x =? 88))) eqn:Eh; [|apply num_run_chars].
+    cbn [skipn firstn]. destruct (num_run true false r) as [p q] eqn:E. intros H. injection H as <- <-.
+    cbn [app forallb]. rewrite (num_run_chars _ _ _ _ _ E).
+    assert (Hz : numch z = true) by (unfold numch, is_alnum, is_alpha, is_digit; lia).
+    assert (Hx : numch x = true) by (unfold numch, is_alnum, is_alpha, is_digit; lia).
+    rewrite Hz, Hx. reflexivity. }
+  destruct s as [|c r]; [intros H; injection H as <- <-; reflexivity|]. unfold num_split.
+  destruct (c =? 46) eqn:Ec.
+  - destruct (num_body r) as [x y] eqn:E. intros H. injection H as <- <-. cbn [forallb]. rewrite (B _ _ _ E).
+    apply Z.eqb_eq in Ec. subst c. reflexivity.
+  - apply B.
+Qed.
+
+Lemma spec_number_inv s t rest : spec_number s = Some (t, rest) ->
+  exists run n d, num_split s = (run, rest) /\ spec_numeral run = Some (n, d) /\
+                  t = mk_stok SNumber run run n d (-1) 0 0.
+Proof.
+  unfold spec_number. destruct (num_split s) as [run r0]. destruct (spec_numeral run) as [[n d]|] eqn:En; [|discriminate].
+  intros H. injection H as <- <-. exists run, n, d. auto.
+Qed.
+
+Lemma dot_hex_none x a : (x =? 120) || (x =? 88) = true -> spec_numeral (46 :: 48 :: x :: a) = None.
+Proof.
+  intros Hx. rewrite spec_numeral_eq. change (46 =? 48) with false. cbv iota. unfold parse_decimal.
+  cbn [span]. change (is_digit 46) with false. cbv iota. change (46 =? 46) with true. cbv iota.
+  cbn [span]. change (is_digit 48) with true. cbv iota.
+  assert (Hd : is_digit x = false) by (unfold is_digit; lia).
+  cbn [span]. rewrite Hd. cbn [nonempty orb].
+  assert (He : (x =? 101) || (x =? 69) = false) by lia. rewrite He. reflexivity.
+Qed.
+
+(* the two ways a complete numeral is read *)
+Lemma num_split_valid s run r0 v : num_split s = (run, r0) -> spec_numeral run = Some v ->
+  (num_mode s = false /\ is_hex_prefix run = false /\ num_run false false s = (run, r0)) \/
+  (exists x a, run = 48 :: x :: a /\ (x =? 120) || (x =? 88) = true /\ s = 48 :: x :: a ++ r0 /\
+               num_run true false (a ++ r0) = (a, r0)).
+Proof.
+  intros H Hv. destruct (num_mode s) eqn:Em.
+  - right. destruct s as [|c r]; [discriminate|]. unfold num_mode in Em. destruct (c =? 46) eqn:Ec.
+    + exfalso. rewrite is_hex_prefix_eq in Em. destruct r as [|z [|x r]]; try discriminate.
+      unfold num_split in H. rewrite Ec, num_body_eq, is_hex_prefix_eq, Em in H. cbn [skipn firstn] in H.
+      destruct (num_run true false r) as [a b]. injection H as <- <-.
+      apply Z.eqb_eq in Ec. subst c. assert (z = 48) by lia. subst z. cbn [app] in Hv.
+      rewrite dot_hex_none in Hv by lia. discriminate.
+    + rewrite is_hex_prefix_eq in Em. destruct r as [|x r]; [discriminate|].
+      assert (c = 48) by lia. subst c. assert (Hx : (x =? 120) || (x =? 88) = true) by lia.
+      rewrite (num_split_hex x r Hx) in H. destruct (num_run true false r) as [a b] eqn:E. injection H as <- <-.
+      pose proof (num_run_split _ _ _ _ _ E) as ->. exists x, a. auto.
+  - left. split; [reflexivity|]. rewrite (num_split_dec s Em) in H. split; [|exact H].
+    pose proof (num_run_split _ _ _ _ _ H) as Hs. rewrite is_hex_prefix_eq.
+    destruct run as [|c [|x run]]; try reflexivity. subst s. cbn [app num_mode] in Em.
+    destruct (c =? 46) eqn:Ec.
+    * replace (c =? 48) with false by lia. reflexivity.
+    * rewrite is_hex_prefix_eq in Em. exact Em.
+Qed.
+
+Lemma numeral_not_dot : spec_numeral [46] = None.
+Proof. reflexivity. Qed.
+
+(* the mode depends on the numeral and on the byte after it only *)
+Lemma num_mode_local run c r0 R : run <> [] -> run <> [46] -> num_mode (run ++ c :: R) = num_mode (run ++ c :: r0).
+Proof.
+  intros H1 H2. unfold num_mode. destruct run as [|a [|b [|d run]]]; cbn [app]; try congruence.
+  - destruct (a =? 46) eqn:Ea; [exfalso; apply H2; f_equal; lia|]. rewrite !is_hex_prefix_eq. reflexivity.
+  - destruct (a =? 46); rewrite !is_hex_prefix_eq; reflexivity.
+  - destruct (a =? 46); rewrite !is_hex_prefix_eq; reflexivity.
+Qed.
+
+(* ... and not at all on what follows when that is no x *)
+Definition x_stops (b : list Z) : Prop :=
+  match b with [] => True | c :: _ => (c =? 120) || (c =? 88) = false end.
+
+Lemma num_mode_ctx run r0 b : run <> [] -> run <> [46] -> num_mode (run ++ r0) = false -> x_stops b ->
+  num_mode (run ++ b) = false.
+Proof.
+  intros H1 H2 Hm Hb. unfold num_mode in *. destruct run as [|a [|e [|d run]]]; cbn [app] in *; try congruence.
+  - destruct (a =? 46) eqn:Ea; [exfalso; apply H2; f_equal; lia|]. rewrite is_hex_prefix_eq.
+    destruct b as [|y b]; [reflexivity|]. cbn [x_stops] in Hb. rewrite Hb. apply andb_false_r.
+  - destruct (a =? 46).
+    + rewrite is_hex_prefix_eq. destruct b as [|y b]; [reflexivity|]. cbn [x_stops] in Hb. rewrite Hb. apply andb_false_r.
+    + rewrite is_hex_prefix_eq in *. exact Hm.
+  - destruct (a =? 46); rewrite is_hex_prefix_eq in *; exact Hm.
+Qed.
+
+Lemma num_start_ctx run r0 b : run <> [] -> run <> [46] -> num_start (run ++ r0) = true -> num_start (run ++ b) = true.
+Proof.
+  intros H1 H2 H. destruct run as [|a [|e run]]; cbn [app num_start] in *; try congruence.
+  destruct (is_digit a); [reflexivity|]. cbn [orb] in *. apply andb_true_iff in H. destruct H as [Ha _].
+  exfalso. apply H2. f_equal. lia.
+Qed.
+
+(* a numeral token is read back in every right context in which its run stops in the same mode *)
+Lemma spec_number_ctx_gen s t rest0 : spec_number s = Some (t, rest0) ->
+  exists run, s_raw t = run /\ run <> [] /\ run <> [46] /\ s = run ++ rest0 /\
+    run_stops (num_mode s) false rest0 /\
+    forall rest, run_stops (num_mode s) false rest -> num_mode (run ++ rest) = num_mode s -> num_start s = true ->
+      spec_step (run ++ rest) = Some (t, rest).
+Proof.
+  intros H. destruct (spec_number_inv _ _ _ H) as (run & n & d & E & En & ->). clear H.
+  pose proof (num_split_split _ _ _ E) as Hs. exists run. split; [reflexivity|].
+  assert (Hne : run <> []).
+  { intros ->. rewrite spec_numeral_eq in En. cbn in En. discriminate. }
+  assert (Hnd : run <> [46]).
+  { intros ->. rewrite numeral_not_dot in En. discriminate. }
+  split; [exact Hne|]. split; [exact Hnd|]. split; [exact Hs|].
+  pose proof (spec_numeral_end_flag _ _ En) as Hfl.
+  destruct (num_split_valid _ _ _ _ E En) as [(Hm & Hh & Hr) | (x & a & -> & Hx & Hs' & Hr)].
+  - rewrite Hh in Hfl. rewrite Hm. split.
+    + pose proof (num_run_stops _ _ _ _ _ Hr) as St. rewrite Hfl in St. exact St.
+    + intros rest Hst Hmode Hstart. subst s.
+      rewrite spec_step_number by (eapply num_start_ctx; eassumption).
+      unfold spec_number. rewrite (num_split_dec _ Hmode).
+      rewrite (num_run_ctx _ run false rest0 rest Hr) by (rewrite Hfl; exact Hst).
+      rewrite En. reflexivity.
+  - assert (Hm : num_mode s = true).
+    { rewrite Hs'. unfold num_mode. change (48 =? 46) with false. cbv iota. rewrite is_hex_prefix_eq.
+      change (48 =? 48) with true. rewrite Hx. reflexivity. }
+    assert (Hfl' : end_flag true false a = false).
+    { rewrite is_hex_prefix_eq in Hfl. change (48 =? 48) with true in Hfl. rewrite Hx in Hfl. cbn [andb end_flag] in Hfl.
+      change (runch true 48) with true in Hfl. cbv iota in Hfl. change (expo true 48) with false in Hfl.
+      assert (Hrx : runch true x = false) by (unfold runch, is_hex, is_digit, is_lower_hex, is_upper_hex; lia).
+      rewrite Hrx in Hfl. exact Hfl. }
+    rewrite Hm. split.
+    + pose proof (num_run_stops _ _ _ _ _ Hr) as St. rewrite Hfl' in St. exact St.
+    + intros rest Hst _ Hstart.
+      rewrite spec_step_number by (rewrite Hs' in Hstart; exact Hstart).
+      unfold spec_number. cbn [app]. rewrite (num_split_hex x _ Hx).
+      rewrite (num_run_ctx _ a false rest0 rest Hr) by (rewrite Hfl'; exact Hst).
+      rewrite En. reflexivity.
+Qed.
+
+Lemma num_stops_x b : num_stops false b -> x_stops b.
+Proof.
+  destruct b as [|c b]; [exact (fun x => x)|]. cbn [num_stops x_stops]. intros [H _].
+  unfold numch, is_alnum, is_alpha in H. lia.
 Qed.
 
 (* a numeral token is read back in every right context that starts with neither a letter, a
@@ -573,21 +756,31 @@ Lemma spec_number_ctx s t rest0 : spec_number s = Some (t, rest0) ->
     forall rest, num_stops false rest -> num_start s = true ->
       spec_step (run ++ rest) = Some (t, rest).
 Proof.
-  unfold spec_number. intros H. destruct (num_run (is_hex_prefix s) false s) as [run r0] eqn:E.
-  destruct (spec_numeral run) as [[n d]|] eqn:En; [|discriminate]. injection H as <- <-.
-  pose proof (num_run_split _ _ _ _ _ E) as Hs. exists run. split; [reflexivity|].
-  assert (Hne : run <> []).
-  { intros ->. rewrite spec_numeral_eq in En. cbn in En. discriminate. }
-  split; [exact Hne|]. split; [exact Hs|]. intros rest Hst Hstart. subst s.
-  pose proof (hex_prefix_ctx run r0 rest E Hne Hst) as Hh.
-  rewrite spec_step_number by (eapply num_start_ctx; eassumption).
-  unfold spec_number. rewrite Hh.
-  assert (Hfl : end_flag (is_hex_prefix (run ++ r0)) false run = false).
-  { assert (is_hex_prefix (run ++ r0) = is_hex_prefix run) as ->.
-    { rewrite <- (app_nil_r run) at 2. symmetry. apply hex_prefix_ctx; [exact E | exact Hne | exact I]. }
-    eapply spec_numeral_end_flag, En. }
-  rewrite (num_run_ctx _ run false r0 rest E) by (rewrite Hfl; exact Hst).
-  rewrite En. reflexivity.
+  intros H. destruct (spec_number_ctx_gen _ _ _ H) as (run & Hr & Hne & Hnd & Hs & _ & Hctx).
+  exists run. split; [exact Hr|]. split; [exact Hne|]. split; [exact Hs|].
+  intros rest Hst Hstart. apply Hctx; [apply num_stops_run, Hst | | exact Hstart].
+  destruct (num_mode s) eqn:Em.
+  - (* hexadecimal: the prefix is inside the numeral *)
+    destruct (spec_number_inv _ _ _ H) as (run' & n & d & E & En & ->). cbn [s_raw] in Hr. subst run'.
+    destruct (num_split_valid _ _ _ _ E En) as [(Hm & _) | (x & a & -> & Hx & _ & _)]; [congruence|].
+    cbn [app]. unfold num_mode. change (48 =? 46) with false. cbv iota. rewrite is_hex_prefix_eq.
+    change (48 =? 48) with true. rewrite Hx. reflexivity.
+  - subst s. eapply num_mode_ctx; [exact Hne | exact Hnd | exact Em | apply num_stops_x, Hst].
+Qed.
+
+(* ... and in front of every text that starts with the byte that followed it *)
+Lemma spec_number_local s t c r0 R : spec_number s = Some (t, c :: r0) -> num_start s = true ->
+  spec_step (s_raw t ++ c :: R) = Some (t, c :: R).
+Proof.
+  intros H Hstart. destruct (spec_number_ctx_gen _ _ _ H) as (run & Hr & Hne & Hnd & Hs & Hst & Hctx).
+  rewrite Hr. apply Hctx; [exact Hst | | exact Hstart]. subst s. apply num_mode_local; assumption.
+Qed.
+
+(* the numeral itself starts like a numeral *)
+Lemma spec_number_start s t rest : spec_number s = Some (t, rest) -> num_start s = true -> num_start (s_raw t) = true.
+Proof.
+  intros H Hstart. destruct (spec_number_ctx_gen _ _ _ H) as (run & Hr & Hne & Hnd & Hs & _).
+  rewrite Hr. rewrite <- (app_nil_r run). subst s. eapply num_start_ctx; eassumption.
 Qed.
 
 (* ---------- long brackets *)
@@ -738,7 +931,7 @@ Proof.
     destruct (span not_eol r2) as [a' b'] eqn:E. injection H as <- <-.
     cbn [s_raw mk app]. change (47 :: 47 :: a' ++ 10 :: R) with ((47 :: 47 :: a') ++ 10 :: R).
     rewrite <- (line_comment_ctx _ R Hall). reflexivity.
-  - (* number *) unfold spec_number in H0. destruct (num_run _ _ _) as [run r0]. destruct (spec_numeral run) as [[n d]|]; [|discriminate].
+  - (* number *) unfold spec_number in H0. destruct (num_split _) as [run r0]. destruct (spec_numeral run) as [[n d]|]; [|discriminate].
     injection H0 as <- <-. discriminate K.
   - (* word *) destruct (mem_bytes a spec_keywords); discriminate K.
   - (* symbol *) destruct (spec_symbol_inv _ _ _ H) as (x & _ & -> & _). discriminate K.
@@ -796,7 +989,7 @@ Qed.
 Lemma spec_step_unpos s t rest : spec_step s = Some (t, rest) -> unpos t = t.
 Proof.
   intros H. apply spec_step_shape in H. destruct H; try reflexivity.
-  - unfold spec_number in H0. destruct (num_run _ _ _) as [run r0]. destruct (spec_numeral run) as [[n d]|]; [|discriminate].
+  - unfold spec_number in H0. destruct (num_split _) as [run r0]. destruct (spec_numeral run) as [[n d]|]; [|discriminate].
     injection H0 as <- <-. reflexivity.
   - destruct (spec_symbol_inv _ _ _ H) as (x & _ & -> & _). reflexivity.
 Qed.
